@@ -73,7 +73,7 @@ func main() {
 	w.run()
 	g.kinds()
 	sites := w.sorted()
-	g.finishPeerClose(sites)
+	g.finishPeerClose(sites, w.calls)
 	for _, s := range sites {
 		if n := a.nodes[s.Node]; n != nil {
 			s.Kinds = kindsOf(n)
